@@ -92,7 +92,8 @@ def main():
             'note': ('the demonstration was confirmed on /repo at the base '
                      'commit; /repo has since gained the fix commits 8a43883 '
                      '(RANDBETWEEN), 347f48b (lower-case error literals) and '
-                     '7f36add (sh.SELF of compiled sub-dispatchers); the '
+                     '7f36add (sh.SELF of compiled sub-dispatchers) and 2be0bc2 '
+                     '(digits of the base in BIN2DEC/OCT2DEC/HEX2DEC); the '
                      'patches still apply and the checks are run on the '
                      'current tree (r2-C13-B and r4-C07-A were re-expressed '
                      'on the repaired functions, patch.orig.diff kept)'),
